@@ -13,6 +13,7 @@ DECIDED = ("R1 in Sim::step the two host loops iterate the two components of one
 NOT_DECIDED = ("millisecond-exact firing of tokio timers, the window of times observable inside a step, monotonicity as a numeric fact.")
 DECIDED += "; R6 exhaustive scan: Topology::tick_by ticks every link"
 DECIDED += "; R7 the tokio clocks and the nominal clocks advance by the same amount per step (whole-millisecond ticks; recorded finding D16); R8 = C01-R7; R9 the step's start instant is cleared when the step ends and HostTimer::elapsed needs none"
+DECIDED += '; R11 the old LocalSet is destroyed inside an entered runtime (destructors run by crash / bounce read the virtual clock)'
 ASSUMPTIONS = ["tokio start_paused + sleep(tick) advances the runtime clock by exactly tick"]
 
 STEP = "turmoil::sim::Sim::step"
